@@ -1189,6 +1189,10 @@ class IntermediateColumnarFormatWriter:
 
     def process_partition(self, partition_index):
         self.load_metadata()
+        if (self.path / "metadata.json").exists():
+            # A (possibly interrupted) finalise has already declared the store
+            # complete: rewriting chunks now could corrupt a store that loads.
+            raise ValueError(f"ICF path already finalised: {self.path}")
         summary_path = self.wip_path / f"p{partition_index}.json"
         # If someone is rewriting a summary path (for whatever reason), make sure it
         # doesn't look like it's already been completed.
